@@ -374,7 +374,7 @@ func (w *World) opKeyConstruct() {
 		if w.init[a] && w.mp[a].Inf {
 			c.mustFail = "identity"
 		}
-		snap := rawOf(w.points[a])
+		was := *w.points[a]
 		if kind == 3 {
 			c.desc = fmt.Sprintf("NewPublicKeyFromPoint(p%d)", a)
 			c.po = protect(func() {
@@ -398,7 +398,7 @@ func (w *World) opKeyConstruct() {
 				}
 			})
 		}
-		if rawOf(w.points[a]) != snap {
+		if w.operandChanged(&was, w.points[a]) {
 			w.r.Violate("C18", "operand-modified", "KeyFromPoint", w.step, "%s modified the supplied point", c.desc)
 		}
 		if c.expectPanic {
